@@ -65,14 +65,25 @@ Record region := RG { rg_addr : N; rg_size : N }.
 Record gregion := GR { gr_map : region; gr_base : N }.
 
 (* ------------------------------------------------------------------ pointer arithmetic *)
-(* `ptr.add(n)` / `ptr.offset(n as isize)` on *mut u8.  The language requires that the address
-   computation does not overflow and that n fits an isize (undefined behaviour otherwise); the
-   toolchain of this image (rustc 1.95) inserts no run-time check for it, neither with nor
-   without debug assertions (probed: `(2^64-16 as *mut u8).add(32)` yields 16 in both profiles),
-   so what the code does is the wrapped sum.  [ptr_add_defined] names the language
-   precondition; Proofs/C01.v shows it holds on every path from a valid parent. *)
+(* `ptr.add(n)` on *mut u8.  The language requires that the address computation does not
+   overflow and that n fits an isize (undefined behaviour otherwise); the toolchain of this image
+   (rustc 1.95) inserts no run-time check for `add`, neither with nor without debug assertions
+   (probed: `(2^64-16 as *mut u8).add(32)` yields 16 in both profiles), so what the code does is
+   the wrapped sum.  [ptr_add_defined] names the language precondition; Proofs/C01.v shows it
+   holds on every path from a valid parent. *)
 Definition ptr_add (a n : N) : N := (a + n) mod W64.
 Definition ptr_add_defined (a n : N) : Prop := n <= ISZ_MAX /\ a + n < W64.
+(* `ptr.offset(n as isize)`: n is the usize that was cast (values above isize::MAX are negative
+   offsets).  For `offset` the same toolchain DOES check, in builds with debug assertions, that
+   address + signed offset stays in [0, 2^64) (probed: `(2 as *mut u8).offset(-3)` and
+   `((2^64-16) as *mut u8).offset(16)` abort with "unsafe precondition(s) violated"; it is a
+   non-unwinding panic, i.e. the process dies); without debug assertions the result is the
+   wrapped sum.  Site 9001 marks that abort. *)
+Definition UB_ABORT_SITE : N := 9001.
+Definition ptr_offset_isize (m : mode) (a n : N) : outcome N :=
+  let in_range := if n <=? ISZ_MAX then a + n <? W64 else W64 <=? a + n in
+  if in_range then Val ((a + n) mod W64)
+  else match m with Debug => Panic UB_ABORT_SITE | Release => Val ((a + n) mod W64) end.
 (* `ptr.wrapping_offset(n as isize)`: two's complement sum, never UB *)
 Definition ptr_wrapping_offset (a n : N) : N := (a + n) mod W64.
 
@@ -230,7 +241,7 @@ Definition va_to_slice (m : mode) (a : varr) : outcome vslice :=
 Definition va_ref_at (m : mode) (a : varr) (index : N) : outcome vref :=
   let* _ := passert 1135 (index <? va_nelem a) in             (* assert!(index < self.nelem) *)
   let* byteofs := pmul m 1140 (va_element_size a) index in    (* (element_size * index) as isize *)
-  let p := ptr_add (va_addr a) byteofs in                     (* self.addr.offset(byteofs) :1141 *)
+  let* p := ptr_offset_isize m (va_addr a) byteofs in         (* self.addr.offset(byteofs) :1141 *)
   Val (VR p (va_esz a)).
 
 (* ------------------------------------------------------------------ ByteValued, bytes.rs *)
